@@ -150,6 +150,29 @@ impl ProtoCtx {
                     format!("ser={} pv={}", ser, pv)
                 }
             },
+            // the witness-graph evaluator on a witness given by values: first six entries, length, digest of all
+            ("calcwit", 8) | ("calcwit_full", 8) => match mk_witness(&w[1..])? {
+                Err(_) => "err".into(),
+                Ok(wi) => match inputs_for_witness_calculation(&wi) {
+                    Err(_) => "err".into(),
+                    Ok(inputs) => {
+                        let inputs = inputs.into_iter().map(|(n, v)| (n.to_string(), v));
+                        let wit = rln::circuit::calculate_rln_witness(inputs, rln::circuit::graph_from_folder());
+                        if w[0] == "calcwit_full" {
+                            format!("[{}]", wit.iter().map(fr_hex).collect::<Vec<_>>().join(","))
+                        } else {
+                            use tiny_keccak::{Hasher, Keccak};
+                            let mut k = Keccak::v256();
+                            for f in &wit {
+                                k.update(&fr_to_bytes_le(f));
+                            }
+                            let mut h = [0u8; 32];
+                            k.finalize(&mut h);
+                            format!("{} len={} digest={}", show_frs(&wit[..6.min(wit.len())]), wit.len(), show_bytes(&h))
+                        }
+                    }
+                },
+            },
             ("de_witness", 2) => match deserialize_witness(&parse_bytes(w[1])?) {
                 Ok((wi, n)) => format!("ok {} read={}", show_witness(&wi), n),
                 Err(_) => "err".into(),
